@@ -206,3 +206,20 @@ Theorem seed_task_uses_its_own_threshold : forall Q sc members w t skip mains w'
     seed_walk Q (mkMgr None (Some t) (m_meta (w_mgr w)) (m_floor_store (w_mgr w)) (m_filter (w_mgr w)) (m_link (w_mgr w)))
               (w_env w) sc members (w_st w) skip mains = (w_st w', handed, ok).
 Proof. exact seed_task_own_threshold. Qed.
+
+(* bulk_meta_tiles (tiled sources, meta tiles downloaded tile by tile): a meta tile that contains a missing or stale
+   tile - decided by the refresh rule, not by mere existence - is downloaded again tile by tile: every tile of it is
+   asked for; or a download fails, and then the request fails with the upstream error and the cache is exactly as
+   it was (nothing of the meta tile is stored). *)
+Theorem bulk_meta_tile_with_stale_tile_is_downloaded_again : forall Q m ev sc s mt a,
+  In a mt -> tm_is_cached Q m ev (s_cache s) a = Some false ->
+  match create_bulk_meta Q m ev sc s mt with
+  | Cont s' cr => exists new, s_log s' = new ++ s_log s /\ forall t, In t mt -> In [t] new
+  | Stop s' e => (e = ESource \/ e = EBody) /\ s_cache s' = s_cache s /\ exists new, s_log s' = new ++ s_log s /\ new <> []
+  end.
+Proof. exact bulk_meta_refetched. Qed.
+
+(* ... and what a bulk download stores over a tile is only that tile's own cacheable upstream answer. *)
+Theorem bulk_store_only_cacheable_answers : forall Q m ev acc c a,
+  (forall v, ~ In (a, v, true) acc) -> get (store_bulk Q m ev c acc) a = get c a.
+Proof. exact store_bulk_untouched. Qed.
